@@ -19,7 +19,7 @@ Obligations = every acquisition site and every call/await made while a guard may
 """
 from ..flow import arg_origins, origins
 from ..locks import acquisition_of, analyse, classes_of, direct_acquisitions, guard_locals, may_acquire
-from ..mir import op_local, strip_generics
+from ..mir import op_local, strip_generics, try_edges
 from ..util import POLL, call_true_false_edges, unreachable_without, where
 
 LEVEL = "proof"
@@ -282,6 +282,25 @@ def check_registration(ctx):
     bookkeeping_rule(ctx, L5, (_REG,))
     from . import c11 as _c11
     ctx.shared("C11", _c11.check)      # when an account counts as registered, and what a registration records (no second newAccount)
+    # declaring that a certificate uses an endpoint must not forget what is stored for it: in Account::add_endpoint_name a plain
+    # `endpoints.insert(..)` is only reachable when the name was found absent (entry().or_insert*/or_default are the other accepted form)
+    ACC_ = "acmed::account::Account"
+    ab = prog.body(ACC_ + "::add_endpoint_name")
+    if ab is not None:
+        ins = [c for c in ab.calls if c.bb in ab.live_blocks() and (c.name or "").endswith("HashMap::insert") and (ACC_, "endpoints") in arg_origins(c, 0).fields]
+        absent_edges = []
+        for c in ab.calls:
+            if c.bb in ab.live_blocks() and (c.name or "").endswith(("HashMap::contains_key",)) and (ACC_, "endpoints") in arg_origins(c, 0).fields:
+                t_, f_ = call_true_false_edges(ab, c)
+                absent_edges += f_
+            if c.bb in ab.live_blocks() and (c.name or "").endswith(("HashMap::get", "HashMap::get_mut")) and (ACC_, "endpoints") in arg_origins(c, 0).fields and c.dest is not None:
+                for t in try_edges(ab, [c.dest["l"]]):
+                    absent_edges += [(t["bb"], tg) for tg in t["err"]]
+        for c in ins:
+            ok_, hit_ = unreachable_without(ab, [c.bb], removed_edges=absent_edges)
+            ctx.require(L5, bool(absent_edges) and ok_, c.where(), "add_endpoint_name inserts a fresh record only for a name that has none (a stored registration is kept)", [ACC_ + "::add_endpoint_name", "overwrites-record"])
+        entries = [c for c in ab.calls if (c.name or "").rsplit("::", 1)[-1] in ("or_insert_with", "or_insert", "or_default", "or_insert_with_key")]
+        ctx.require(L5, bool(ins) or bool(entries), "%s:%s" % (ab.file, ab.line), "add_endpoint_name creates the record when the name is new (entry API or guarded insert)", [ACC_ + "::add_endpoint_name", "creates-record"])
     for key in ("acmed::account::Account::synchronize", "acmed::account::Account::register", "acmed::acme_proto::account::register_account"):
         b = prog.must_body(key)
         ins = b.raw.get("inputs", [])
